@@ -335,9 +335,6 @@ func (p *Proxy) handle(conn net.Conn) {
 }
 
 func (p *Proxy) maybeCreateSession(version primitive.ProtocolVersion, keyspace, compression string) (*proxycore.Session, error) {
-	// Creating a session stores it in p.sessions: that needs the write lock.
-	p.sessionsMu.Lock()
-	defer p.sessionsMu.Unlock()
 	return p.maybeCreateSessionUnlocked(version, keyspace, compression)
 }
 
@@ -352,9 +349,15 @@ func (p *Proxy) findSession(version primitive.ProtocolVersion, keyspace, compres
 	return p.maybeCreateSession(version, keyspace, compression)
 }
 
+// maybeCreateSessionUnlocked is called without sessionsMu held. Connecting a session waits for the backend (the
+// cluster's event loop, a connection to every host, USE on each), and every request of every client looks its session
+// up in p.sessions: so the lock is held only around the table itself, never while connecting.
 func (p *Proxy) maybeCreateSessionUnlocked(version primitive.ProtocolVersion, keyspace, compression string) (*proxycore.Session, error) {
 	key := sessionKey{version: version, keyspace: keyspace, compression: compression}
-	if cachedSession, ok := p.sessions[key]; ok {
+	p.sessionsMu.RLock()
+	cachedSession, ok := p.sessions[key]
+	p.sessionsMu.RUnlock()
+	if ok {
 		return cachedSession, nil
 	} else {
 		sess, err := proxycore.ConnectSession(p.ctx, p.cluster, proxycore.SessionConfig{
@@ -374,6 +377,12 @@ func (p *Proxy) maybeCreateSessionUnlocked(version primitive.ProtocolVersion, ke
 			return nil, err
 		}
 
+		// Storing the session needs the write lock; another client may have connected the same session meanwhile.
+		p.sessionsMu.Lock()
+		defer p.sessionsMu.Unlock()
+		if cachedSession, ok = p.sessions[key]; ok {
+			return cachedSession, nil
+		}
 		p.sessions[key] = sess
 		return sess, nil
 	}
